@@ -186,7 +186,7 @@ def rows_of(items):
             r = tb.of(x["res"])
             tr = x["tr"]
             rows.append(('vh::trn<typename X::%s<%s>::type, X::%s_t<%s>, T%d>(%s, %s, TJ[%d]);' % (tr, T, tr, T, r, cstr(tr), J, r),
-                         'vh::ill(%s, %s);' % (cstr(tr), J)))
+                         'vh::ill_tr(%s, %s, TJ[%d]);' % (cstr(tr), J, r)))
         for tr in g["has"]:
             rows.append(('vh::has(%s, %s, vh::has_type<X::%s, %s>);' % (cstr(tr), J, tr, T), 'vh::ill(%s, %s);' % (cstr(tr), J)))
     for g in sorted((g for g in items if g["g"] == "pair"), key=key):
@@ -208,7 +208,8 @@ def rows_of(items):
             else:
                 flag = "true" if tr == "conditional_true" else "false"
                 a, b = "typename X::conditional<%s, %s, %s>::type" % (flag, T, U), "X::conditional_t<%s, %s, %s>" % (flag, T, U)
-            rows.append(('vh::trn2<%s, %s, T%d>(%s, %s, TJ[%d]);' % (a, b, r, cstr(tr), JJ, r), 'vh::ill2(%s, %s);' % (cstr(tr), JJ)))
+            rows.append(('vh::trn2<%s, %s, T%d>(%s, %s, TJ[%d]);' % (a, b, r, cstr(tr), JJ, r),
+                         'vh::ill_tr2(%s, %s, TJ[%d]);' % (cstr(tr), JJ, r)))
     for g in sorted((g for g in items if g["g"] == "limits"), key=key):
         i, u = tb.of(g["t"]), tb.of(g["rt"])
         T, J = "T%d" % i, "TJ[%d]" % i
@@ -246,6 +247,17 @@ def rows_of(items):
             RR = "X::ratio<%d, %d>, X::ratio<%d, %d>" % a
             rows.append(('vh::ratiocmp(%s, %d, %d, %d, %d, X::%s<%s>::value, X::%s_v<%s>);' % ((cstr(op),) + a + (op, RR, op, RR)),
                          'vh::illr(%s, %d, %d, %d, %d);' % ((cstr(op),) + a)))
+    def bigr(a):
+        n = "(%s(INTMAX_MAX - %d))" % ("-" if a["neg"] else "", a["off"])
+        return "X::ratio<%s, %d>" % (n, a["d"]), cstr(json.dumps(a, sort_keys=True, separators=(",", ":")))
+    for g in sorted((g for g in items if g["g"] == "big1"), key=key):
+        R, J = bigr(g["a"])
+        rows.append(('vh::big1(%s, %s::num, %s::den);' % (J, R, R), 'vh::illbig("ratio", %s, nullptr);' % J))
+    for g in sorted((g for g in items if g["g"] == "bigcmp"), key=key):
+        (Ra, Ja), (Rb, Jb) = bigr(g["a"]), bigr(g["b"])
+        for op in ("ratio_equal", "ratio_not_equal", "ratio_less", "ratio_less_equal", "ratio_greater", "ratio_greater_equal"):
+            rows.append(('vh::bigcmp(%s, %s, %s, X::%s<%s, %s>::value, X::%s_v<%s, %s>);' % (cstr(op), Ja, Jb, op, Ra, Rb, op, Ra, Rb),
+                         'vh::illbig(%s, %s, %s);' % (cstr(op), Ja, Jb)))
     LOGIC = {"T": "X::true_type", "F": "X::false_type", "P": "vh::poison"}
     for g in sorted((g for g in items if g["g"] == "logic"), key=key):
         args = ", ".join(LOGIC[b] for b in g["bs"])
